@@ -405,7 +405,7 @@ def c04_scenarios(seed, tier):
     boundary shift, or only in bytes that are not valid UTF-8; plus non-zero output buffers"""
     ms = [b"", b"m", b"me", b"m\x80"]
     es = [b"", b"e", b"\x80", b"\xff", b"\xef\xbf\xbd", b"e\x80", b"\xc0\x80", b"ee"]
-    ts = [1, 2, 257, 65537, 2**32 - 1]
+    ts = [1, 2, 257, 258, 65537, 65538, 2**32 - 1]
     base = [(m, e, t) for m in ms for e in es for t in (1, 2)] + [(b"m", b"e", t) for t in ts]
     out = []
     for i, a in enumerate(base):
